@@ -1,0 +1,19 @@
+//! Verification hooks, compiled only with the cargo feature `verif_hooks`.
+//! A harness installs a handler; every hooked site reports (site, args) to it.
+//! Without a handler `emit` does nothing.
+use std::sync::{Arc, RwLock};
+
+pub type Handler = Arc<dyn Fn(&'static str, &[u64]) + Send + Sync>;
+
+static HANDLER: RwLock<Option<Handler>> = RwLock::new(None);
+
+pub fn set_handler(handler: Option<Handler>) {
+    *HANDLER.write().unwrap() = handler;
+}
+
+pub fn emit(site: &'static str, args: &[u64]) {
+    let handler = { HANDLER.read().unwrap().clone() };
+    if let Some(handler) = handler {
+        handler(site, args);
+    }
+}
